@@ -59,6 +59,7 @@ def c20Fact (name : String) : Option String :=
   | "roCallees" => some (" ".intercalate Gen.HostApi.roCallees)
   | "checkViewRet" => some (" ".intercalate (Gen.HostApi.checkViewRet.map (·.replace " " "_")))
   | "refuseExempt" => some (" ".intercalate (Gen.HostApi.refuseExempt.map (·.1)))
+  | "cErrChecks" => some (" ".intercalate (Gen.HostApi.cErrChecks.map fun (a, b, c, d) => a ++ "=" ++ b ++ "=" ++ c.replace " " "_" ++ "=" ++ d))
   | "refuseOK" => some (toString Gen.HostApi.program.refuseOK)
   | "viewBracket" =>
     some (match Gen.HostApi.program.fns.find? (·.name == "executor.call") with
